@@ -602,6 +602,55 @@ theorem point_pixel_inverse_ext (tiny fx fy cx cy : ℝ) (X : SE3 ℝ) (hX : X.q
   obtain ⟨u, v, h1, h2⟩ := point_pixel_inverse tiny fx fy cx cy (SE3Act X p) ht hfx hfy hz
   exact ⟨u, v, SE3Act X p, by rw [point2pixel_ext, h1], h2, SE3Act_inv_left X hX p⟩
 
+/-! ## hardening: aliasing, call histories, batches -/
+
+/-- **one tensor passed as both arguments** (`knn(X, X)`): every point finds itself first — the smallest returned
+distance of a reference point that is also a neighbour is `0`. -/
+theorem knn_self_first (htk : TopkContract topk) (o : Norm) (kk : Nat) (nbr : List (Pt ℝ)) (hk : kk ≤ nbr.length)
+    (hk1 : 1 ≤ kk) (r : Pt ℝ) (hr : r ∈ nbr) :
+    (knnRow topk o false kk nbr r).1.head? = some 0 := by
+  rw [(knn_spec topk htk o false kk nbr hk r).1]
+  set d := nbr.map (dist o r) with hd
+  have h0 : (0 : ℝ) ∈ sortVals false d :=
+    (sortVals_perm false d).symm.subset (List.mem_map.2 ⟨r, hr, dist_self o r⟩)
+  have hpos : ∀ x ∈ sortVals false d, 0 ≤ x := by
+    intro x hx
+    have := (sortVals_perm false d).subset hx
+    simp only [hd, List.mem_map] at this
+    obtain ⟨p, _, rfl⟩ := this
+    exact normOf_nonneg o _
+  have hs := sortVals_pairwise false d
+  cases hl : sortVals false d with
+  | nil => rw [hl] at h0; simp at h0
+  | cons x xs =>
+    rw [hl] at h0 hpos hs
+    have hx0 : x ≤ 0 := by
+      rcases List.mem_cons.1 h0 with h | h
+      · rw [h]
+      · have := (List.pairwise_cons.1 hs).1 0 h
+        simpa [ordRel] using this
+    have : x = 0 := le_antisymm hx0 (hpos x List.mem_cons_self)
+    obtain ⟨k', rfl⟩ : ∃ k', kk = k' + 1 := ⟨kk - 1, by omega⟩
+    simp [this]
+
+/-- **statelessness of a call history**: the result of a call is `evalCall` of ITS OWN arguments — the values its
+tensors hold at that moment — whatever was called before or after it on whatever objects. -/
+theorem history_stateless (tr : ℝ → Int) (uniq : List (List Int) → List (List Int)) (h₁ h₂ : List (Call ℝ)) (c : Call ℝ) :
+    (runHistory topk tr uniq (h₁ ++ c :: h₂))[h₁.length]? = some (evalCall topk tr uniq c) := by
+  simp [runHistory]
+
+/-- a history in another order gives the same results in that order -/
+theorem history_perm (tr : ℝ → Int) (uniq : List (List Int) → List (List Int)) {h h' : List (Call ℝ)} (hp : h.Perm h') :
+    (runHistory topk tr uniq h).Perm (runHistory topk tr uniq h') := hp.map _
+
+/-- **item-wise = batched**: item `b` of a batched `knn_filter` / `knn` call is the call on item `b` alone, whatever the
+other items of the batch are (no batch-level decision). -/
+theorem batched_itemwise (o : Norm) (lg : Bool) (pdim kk : Nat) (clouds : List (List (Pt ℝ)))
+    (pairs : List (List (Pt ℝ) × List (Pt ℝ))) (b : Nat) :
+    (knnFilterBatch topk o pdim kk clouds)[b]? = (clouds[b]?).map (knnFilter topk o pdim kk none) ∧
+    (knnBatch topk o lg kk pairs)[b]? = (pairs[b]?).map (fun p => knn topk o lg kk p.1 p.2) := by
+  simp [knnFilterBatch, knnBatch]
+
 /-! ## non-vacuity: the hypotheses used above are satisfiable by non-trivial values -/
 
 /-- a `topk` kernel meeting the contract exists: the driver's stand-in (stable merge sort) -/
